@@ -142,7 +142,7 @@ def _expect_temporal_violation(ctx, cfg, timeout=3600):
     m = re.search(r'Error: Temporal property (\S+) was violated', out)
     res = vlib.parse_tlc(out)
     vlib.log('[tlc-mc] Queue_MC/%s: %d generated, %d distinct, %.1fs, %s' % (cfg, res['generated'], res['distinct'], time.time() - t0,
-             ('expected VIOLATION ' + m.group(1)) if m else 'no violation'))
+             ('expected refutation ' + m.group(1)) if m else 'no violation'))
     ctx.checker_cmds.append('tlc -workers 4 -config %s Queue_MC  (expected liveness violation)' % cfg)
     if not m or m.group(1) != 'ClosedCallsReturn':
         raise vlib.Broken('anti-vacuity: %s (implementation variant without the repair) must violate ClosedCallsReturn:\n%s' % (cfg, out[-1500:]))
